@@ -397,7 +397,7 @@ def corner_scenarios(draw):
     src = S.DrawSrc(draw)
     kind = src.choice(["event_order", "micro_intron_blocks", "threaded_ends", "adjacent_cluster", "corner_start",
                        "similar_novel", "monoexon_overlap", "ragged_polya", "flanking_introns", "readthrough_tip",
-                       "intronic_tail_fragment", "intronic_tail_fragment"])
+                       "intronic_tail_fragment", "intronic_tail_fragment", "short_novel_ends"])
     extra_opts = []
     force_dt = None
     if os.environ.get("VERIF_C11_KIND"):
@@ -539,6 +539,27 @@ def corner_scenarios(draw):
         add([X[0], [X[1][0], X[1][1] + 50], [Y[0][0] + src.choice([0, 50]), Y[0][1]], Y[1], Y[2]], 1, tail=False,
             prefix="t")
         force_dt = "pacbio_ccs"
+    elif kind == "short_novel_ends":
+        # an annotated 4-exon isoform with full-length reads and an unannotated exon-skipping isoform that shares its
+        # last (or first) intron; the reads of the novel isoform stop at two places well inside the shared terminal
+        # exon, none of them near the end of the annotated isoform
+        lens = [src.int(200, 300), src.int(150, 220), src.int(150, 220), src.int(200, 300)]
+        side = src.choice(["right", "left"])
+        lens[-1 if side == "right" else 0] = src.int(480, 650)
+        T = chain(lens, [src.int(400, 700) for _ in range(3)], base)
+        trs = [{"id": "T", "exons": T}]
+        add(T, src.int(4, 6), tail=src.bool(0.5), prefix="f")
+        d1, d2 = src.int(70, 150), src.int(220, 380)
+        n1, n2 = src.int(2, 4), src.int(2, 4)
+        if side == "right":
+            N = [T[0], T[2], T[3]]
+            for d, n in ((d1, n1), (d2, n2)):
+                add(N[:-1] + [[N[-1][0], N[-1][1] - d]], n, tail=False, prefix="n")
+        else:
+            N = [T[0], T[1], T[3]]
+            for d, n in ((d1, n1), (d2, n2)):
+                add([[N[0][0] + d, N[0][1]]] + N[1:], n, tail=False, prefix="n")
+        novel.append(N)
     elif kind == "intronic_tail_fragment":
         # full-length tailed reads of a spliced transcript and unspliced tailed reads that end at its polyA site and
         # begin inside its last intron (intron retention / an unspliced transcript of its own)
